@@ -43,6 +43,9 @@ CHECKS = {
  "C04": ("zcheck", "complete enumeration of a finite product (reply frames x continues x member orders x expected parameter types x error types x receive path), each case one execution of the real receive_reply / call_method",
          "373 reply frames (all shapes the statement names, incl. error replies whose parameters fit the expected success type) x 5 parameter types x 3 error types x 2 paths; the oracle classifies the frame from its JSON text alone.",
          "Trusted: serde_json for `this frame decodes as that type`. The proxy path is covered by C12's corpus.", "4 C04"),
+ "C05": ("zcheck", "complete enumeration of finite products (flag sets x member permutations x method types; error values x member orders x parameter spellings; reply shapes; no-parameter spellings at three call sites), each case executed against the real encoders/decoders",
+         "Calls are encoded through zlink's own serializer and serde_json and compared with JSON built structurally from the value, decoded back, and decoded from every member order with every flag assignment and an unknown member (a capturing method type proves flags are hidden and other members passed through); derived and library error enums, Reply<T>, unit-output proxy methods and GetInfo with parameters absent / null / {}.",
+         "Trusted: serde_json as JSON parser. The error-enum corpus is hand-written (3 types, 17 values); a generated corpus is part of C12's crate.", "4 C05"),
 }
 
 NOT_YET = {
